@@ -197,8 +197,14 @@ pub fn run_c05(tier: &str, seed: u64, out: &mut Out) {
         }
         out.case(case, vres_obs(&res), true);
 
-        // decimals
-        let lit = gen_dec_literal(&mut r);
+        // decimals (an exponent without a sign is given an explicit '+' now and then)
+        let lit = {
+            let l = gen_dec_literal(&mut r);
+            match l.find(|c| c == 'e' || c == 'E') {
+                Some(i) if r.chance(1, 3) && l[i + 1..].starts_with(|c: char| c.is_ascii_digit()) => format!("{}+{}", &l[..=i], &l[i + 1..]),
+                _ => l,
+            }
+        };
         let case = format!("parse str {} {}", Ro::DEFAULT.code(), bytes_code(lit.as_bytes()));
         let res = match parse_value(Src::Str, Ro::DEFAULT, lit.as_bytes()) {
             Ok(x) => x,
@@ -231,6 +237,23 @@ pub fn run_c05(tier: &str, seed: u64, out: &mut Out) {
             }
         }
         out.case(case, vres_obs(&res), true);
+
+        // the same literal under option sets with leading_digit_symbols (the digit-initial arm re-parses the
+        // scanned symbol): a numeric literal is still that number; compared with the model too
+        if !lit.starts_with('+') && !lit.starts_with('-') && lit.is_ascii() {
+            for ro in [Ro::ELISP, Ro { digit: 1, ..Ro::DEFAULT }] {
+                let case = format!("parse str {} {}", ro.code(), bytes_code(lit.as_bytes()));
+                out.oracle_checks += 1;
+                match (parse_value(Src::Str, ro, lit.as_bytes()), &res) {
+                    (Ok(r2), _) => {
+                        let same = match (&r2, &res) { (Ok(a), Ok(b)) => value_eq(a, b, true), (Err(_), Err(_)) => true, (Ok(Value::Symbol(s)), Err(_)) => &**s == lit.as_str(), _ => false };
+                        if !same { out.fail("decimal-digit-option", format!("literal {} reads as {} under default options but as {} with leading_digit_symbols", lit, vres_obs(&res), vres_obs(&r2)), case.clone(), json!({})); }
+                        out.case(case, vres_obs(&r2), true);
+                    }
+                    (Err(p), _) => out.fail("panic", p, case, json!({})),
+                }
+            }
+        }
     }
     // every number the printer emits is a literal that reads back
     for _ in 0..n / 2 {
@@ -438,6 +461,26 @@ pub fn run_c08(tier: &str, seed: u64, out: &mut Out) {
     for c in (33u8..=126).map(|b| b as char).chain(std::iter::once('\u{3bb}')) {
         if c == ';' { continue; }
         for t in [format!("12{}", c), format!("12{}x", c), format!("1.5{}x", c), format!("1e3{}", c), format!("ab{}cd", c)] { corpus.push(t); }
+    }
+    // an option set is what its getters say it is, however it was built: from any base set,
+    // keyword syntaxes listed in any order with repetitions, every other field overridden;
+    // and the set so built reads the keyword spellings like the canonical one
+    for ro in &all {
+        for _ in 0..3 {
+            let alt = ro.options_alt(&mut r);
+            out.oracle_checks += 1;
+            let seen = Ro::of_options(alt);
+            if seen != *ro || Ro::of_options(ro.options()) != *ro {
+                out.fail("options-construction", format!("an option set built with with_keyword_syntaxes and the other setters reports {} through its getters, expected {}", seen.code(), ro.code()), format!("options {}", ro.code()), json!({}));
+            }
+            for tok in [":a", "a:", "#:a", "nil", "t", "[x]", "?a", "#%a", "1+"] {
+                let a = lexpr::from_str_custom(tok, alt).map_err(|e| e.to_string());
+                let b = lexpr::from_str_custom(tok, ro.options()).map_err(|e| e.to_string());
+                if a != b {
+                    out.fail("options-construction", format!("token {:?} reads differently under two constructions of the option set {}: {:?} vs {:?}", tok, ro.code(), a, b), format!("options {} {}", ro.code(), tok), json!({}));
+                }
+            }
+        }
     }
     for ro in &ros {
         for tok in &corpus {
@@ -696,6 +739,20 @@ pub fn run_c11(tier: &str, seed: u64, out: &mut Out) {
                         match chk { Ok(o) => { out.oracle_checks += o.oracle_checks; out.failures.extend(o.failures); } Err(_) => out.fail("panic", "span walk panicked".into(), case.clone(), json!({})) }
                     }
                 }
+                Err(p) => out.fail("panic", p, case, json!({})),
+            }
+        }
+        // a stream that fails once (a transient error) and then delivers the rest: the caller carries on;
+        // what is read after the failure, spans included, is what the model reads from the same events
+        if i % 4 == 0 && tb.len() >= 2 {
+            let cut = 1 + r.below(tb.len() as u64 - 1) as usize;
+            let id = r.below(1000) as u32;
+            let evs = vec![Ev::Bytes(tb[..cut].to_vec()), Ev::Fail(id), Ev::Bytes(tb[cut..].to_vec())];
+            let cap = tb.len() + 3;
+            let case = format!("iter io {} d {} {}", ro.code(), cap, events_code(&evs));
+            out.oracle_checks += 1;
+            match iterate_events(ro, evs, 'd', cap) {
+                Ok(items) => { out.count("stream:transient-failure"); out.case(case, items.join(" ;; "), true) }
                 Err(p) => out.fail("panic", p, case, json!({})),
             }
         }
